@@ -37,6 +37,8 @@ TO = z3.Function("TO", TyS, TyS, OrderS)
 SC = z3.Function("SC", TyS, TyS, z3.BoolSort())
 TYPING_ALIAS = z3.Function("typing_alias", TyS, z3.BoolSort())  # typing.List[int] (True) vs list[int] (False)
 ISSUB = z3.Function("ISSUB", TyS, TyS, z3.BoolSort())  # issubclass below the unfolding depth (pure, total on classes)
+metacls = z3.Function("metacls", TyS, ObjS)  # type(t): the metaclass / dependent-type class of a type object
+MC_METAMC, MC_EQUALS, MC_PRODUCT, HC_UNION, HC_INTER, HC_SFH = z3.Consts("MC_METAMC MC_EQUALS MC_PRODUCT HC_UNION HC_INTER HC_SFH", ObjS)
 HOOKY = z3.Function("H", TyS, z3.BoolSort())  # hereditarily contains a constructor with a two-sided order hook
 
 METAMC = ["Union", "Inter", "Exactly", "Strict", "HasMethod", "ClassCheck"]
@@ -75,6 +77,7 @@ def background():
         # the origin of an alias is a plain class; the bound of tuple[...] is tuple
         z3.ForAll([t], z3.Implies(kind(t) == K["Alias"], kind(base(t)) == K["Class"]), patterns=[base(t)]),
         z3.ForAll([t], z3.Implies(kind(t) == K["Product"], base(t) == TUPLE), patterns=[base(t)]),
+        z3.ForAll([t], z3.Implies(kind(t) == K["HasMethod"], nargs(t) == 1), patterns=[nargs(t)]),
         # issubclass below the unfolding depth
         z3.ForAll([t, u], z3.Implies(z3.And(kind(t) == K["Class"], kind(u) == K["Class"]), ISSUB(t, u) == sub(t, u)), patterns=[ISSUB(t, u)]),
         z3.ForAll([t, u], z3.Implies(is_kind(u, DEP), ISSUB(t, u) == (t == u)), patterns=[ISSUB(t, u)]),
@@ -90,16 +93,36 @@ def background():
 EXTENSIONALITY = None
 
 
+DEPCLS = z3.Function("is_depclass", ObjS, z3.BoolSort())  # the object is a subclass of DependentType
+
+
+def metaclass_axioms():
+    t = z3.Const("t", TyS)
+    return [
+        z3.ForAll([t], DEPCLS(metacls(t)) == is_kind(t, DEP), patterns=[metacls(t)]),
+        z3.Distinct(MC_METAMC, MC_EQUALS, MC_PRODUCT, HC_UNION, HC_INTER, HC_SFH),
+        z3.ForAll([t], z3.Implies(is_kind(t, METAMC), metacls(t) == MC_METAMC), patterns=[metacls(t)]),
+        z3.ForAll([t], z3.Implies(kind(t) == K["Equals"], metacls(t) == MC_EQUALS), patterns=[metacls(t)]),
+        z3.ForAll([t], z3.Implies(kind(t) == K["Product"], metacls(t) == MC_PRODUCT), patterns=[metacls(t)]),
+        z3.ForAll([t], z3.Implies(kind(t) == K["FuncDep"], z3.And(metacls(t) == func_of(t), metacls(t) != MC_METAMC, metacls(t) != MC_EQUALS, metacls(t) != MC_PRODUCT)), patterns=[metacls(t)]),
+        z3.ForAll([t], z3.Implies(is_kind(t, ["Class", "Alias", "PyUnion"]), z3.And(metacls(t) != MC_METAMC, metacls(t) != MC_EQUALS, metacls(t) != MC_PRODUCT)), patterns=[metacls(t)]),
+    ]
+
+
 def extensionality():
-    """Two terms of one kind with equal components are the same element (mirrors the __eq__ methods)."""
+    """Two terms of one kind with equal components are the same element (mirrors the __eq__ methods;
+    discharged against the real __eq__ bodies by the eq/agrees obligations of C15)."""
     t, u = z3.Consts("t u", TyS)
     i = z3.Int("i")
+    same_pvals = z3.And(nargs(t) == nargs(u), z3.ForAll([i], z3.Implies(z3.And(0 <= i, i < nargs(t)), pval(t, i) == pval(u, i))))
     same_args = z3.And(nargs(t) == nargs(u), z3.ForAll([i], z3.Implies(z3.And(0 <= i, i < nargs(t)), arg(t, i) == arg(u, i))))
     return [
-        z3.ForAll([t, u], z3.Implies(z3.And(is_kind(t, ["Exactly", "Strict"]), kind(t) == kind(u), base(t) == base(u)), t == u)),
+        # (no such axiom for Exactly / StrictSubclass / HasMethod: SingleFunctionHandler defines no __eq__, two
+        #  separately built Exactly[A] are different objects that compare unequal)
         z3.ForAll([t, u], z3.Implies(z3.And(is_kind(t, ["Union", "Inter"]), kind(t) == kind(u), same_args), t == u)),
         # ParametrizedDependentType.__eq__ for tuple[...] types: same element types (the bound is always tuple)
         z3.ForAll([t, u], z3.Implies(z3.And(kind(t) == K["Product"], kind(u) == K["Product"], same_args), t == u)),
+        z3.ForAll([t, u], z3.Implies(z3.And(is_kind(t, ["Equals", "FuncDep"]), kind(t) == kind(u), metacls(t) == metacls(u), same_pvals, base(t) == base(u)), t == u)),
     ]
 
 
@@ -183,6 +206,20 @@ class TyV(ZV):
                 return False
         return NotImplemented
 
+    def py_eq(self, I, other):
+        """`==` between two type objects: at the top level through the real __eq__ bodies (python_eq); for
+        components inside quantified contexts, and below the first unfolding, identity of type terms (the
+        induction hypothesis eq/sound + eq/complete for strictly smaller terms)."""
+        if not isinstance(other, TyV) or not getattr(I.world, "real_eq", False):
+            return NotImplemented
+        if I.pure or I.path.binders or getattr(I.path, "eq_depth", 0) >= 1:
+            return self.t == other.t
+        I.path.eq_depth = 1
+        try:
+            return I.world.python_eq(I, self, other)
+        finally:
+            I.path.eq_depth = 0
+
     def py_compare(self, I, op, other):
         # `self < other` between dependent types -> type(self).__lt__(self, other)
         if isinstance(op, ast.Lt) and isinstance(other, TyV):
@@ -209,6 +246,11 @@ class ParamV(ZV):
     def __init__(self, ty, i):
         super().__init__(pval(ty.t, i), "obj")
         self.ty, self.i = ty, i
+
+    def py_eq(self, I, other):
+        if isinstance(other, ParamV):
+            return z3.If(kind(self.ty.t) == K["Product"], arg(self.ty.t, self.i) == arg(other.ty.t, other.i), pval(self.ty.t, self.i) == pval(other.ty.t, other.i))
+        return NotImplemented
 
     def as_type(self):
         return TyV(arg(self.ty.t, self.i))
@@ -245,6 +287,24 @@ class HandlerV(SymObj):
             I.require(t.kind_in(SFH), "handler.kind")
             return RepoFn(f"types:SingleFunctionHandler.{name}", bound=self)
         raise OutOfSubset(f"handler attribute {name}")
+
+    def py_eq(self, I, other):
+        """`h1 == h2` for two handlers of the same class: the class's own __eq__ if the source defines one,
+        object identity otherwise."""
+        from pyvc import source
+
+        if not isinstance(other, HandlerV):
+            return False
+        t = self.ty
+        m = source.module("types")
+        for kn, cn in (("Union", "Union"), ("Inter", "Intersection")):
+            if I.branch(kind(t.t) == K[kn]):
+                if f"{cn}.__eq__" in m.functions:
+                    return I.truth(I.call_repo(f"types:{cn}.__eq__", [self, other], {}))
+                return t.t == other.ty.t
+        if "SingleFunctionHandler.__eq__" in m.functions:
+            return I.truth(I.call_repo("types:SingleFunctionHandler.__eq__", [self, other], {}))
+        return t.t == other.ty.t
 
     def _sfh_args(self, I):
         t = self.ty
@@ -311,6 +371,7 @@ class TypesWorld(World):
         self.axiom(lambda I: background())
         if use_ext:
             self.axiom(lambda I: extensionality())
+        self.axiom(lambda I: metaclass_axioms())
         self.set_global("mro", "Order", OrderClassV())
         self.set_global("types", "Order", OrderClassV())
         self.set_global("dependent", "Order", OrderClassV())
@@ -324,6 +385,7 @@ class TypesWorld(World):
         self.set_global("types", "Union", BareCtor("Union"))
         self.set_global("types", "Intersection", BareCtor("Intersection"))
         self.measure_stack = []
+        self.real_eq = True
 
     def term_of(self, I, v):
         if isinstance(v, PyClassToken):
@@ -350,6 +412,38 @@ class TypesWorld(World):
 
     def is_singleton(self, I, z, other):
         return False  # a symbolic Ty/Order/Obj value is never None / NotImplemented
+
+    def type_of(self, I, x):
+        if isinstance(x, TyV):
+            return ObjV(metacls(x.t))
+        if isinstance(x, HandlerV):
+            t = x.ty.t
+            return ObjV(z3.If(kind(t) == K["Union"], HC_UNION, z3.If(kind(t) == K["Inter"], HC_INTER, HC_SFH)))
+        raise OutOfSubset(f"type({x!r})")
+
+    def python_eq(self, I, a, b):
+        """The `==` operator on two type objects, dispatched as CPython does, through the real __eq__ bodies
+        of the repository where the class of the left (then right) operand defines one."""
+        from pyvc import source
+
+        def one(x, y):
+            if I.branch(is_kind(x.t, METAMC)):
+                return I.truth(I.call_repo("types:MetaMC.__eq__", [x, y], {}))
+            if I.branch(is_kind(x.t, DEP)):
+                return I.truth(I.call_repo("dependent:ParametrizedDependentType.__eq__", [x, y], {}))
+            return NotImplemented  # type.__eq__ / GenericAlias: identity or library behaviour
+
+        saved = getattr(I.path, "eq_depth", 0)
+        I.path.eq_depth = 1  # components compare by identity of type terms (induction hypothesis)
+        try:
+            r = one(a, b)
+            if r is NotImplemented:
+                r = one(b, a)
+        finally:
+            I.path.eq_depth = saved
+        if r is NotImplemented:
+            return a.t == b.t
+        return r
 
     def get_origin(self, I, t):
         if isinstance(t, TyV):
